@@ -220,6 +220,9 @@ def nestedKw (b : Builder) (t : Nested) : List Name :=
   (t.attrs.filter (fun a =>
       a.init && !(currentNames b).contains a.name && !(t.overflow == some a.name))).map (·.name)
 
+/-- the `with_arg` that `with_args(..., virtual=True)` issues per name (`default=` is always given) -/
+def kwVirtual (k : Name) : ArgSpec := ⟨k, .kwOnly, true, true⟩
+
 /-- `with_spec_attrs_for(spec_cls)` for a spec class (`with_args(..., virtual=True)`
 then the virtual `**overflow`). `with_args` raises when a name is already a
 parameter; `nestedKw` never contains one, so that branch is the `contains` test
@@ -228,7 +231,7 @@ def withSpecAttrsFor (b : Builder) (t : Nested) : Except Err Builder :=
   let ks := nestedKw b t
   if ks.any (fun k => (currentNames b).contains k) then .error .runtimeError
   else
-    match withArgs b (ks.map (fun k => ⟨k, .kwOnly, true, true⟩)) with
+    match withArgs b (ks.map kwVirtual) with
     | .error e => .error e
     | .ok b1 =>
       match t.overflow with
@@ -359,9 +362,9 @@ structure MethodCfg where
   nested : Option Nested         -- the class handed to `with_spec_attrs_for` when it is a spec class
   deriving Repr
 
-private def pk (n : Name) (d : Bool) : ArgSpec := ⟨n, .posOrKw, d, false⟩
-private def ko (n : Name) : ArgSpec := ⟨n, .kwOnly, true, false⟩
-private def tail2 : List ArgSpec := [ko "_inplace", ko "_if"]
+def pk (n : Name) (d : Bool) : ArgSpec := ⟨n, .posOrKw, d, false⟩
+def ko (n : Name) : ArgSpec := ⟨n, .kwOnly, true, false⟩
+def tail2 : List ArgSpec := [ko "_inplace", ko "_if"]
 
 /-- the non-virtual `with_arg` calls of each `build_method`, in order -/
 def recipe (m : MethodCfg) : List ArgSpec :=
